@@ -810,7 +810,8 @@ namespace
   }
 
 #include "h_prob_objects.inc" // NOLINT: class / instance / object-variable layer of the generator
-#include "h_prob_timelines.inc" // NOLINT: StateVariable / ReusableResource layer and the plan validators
+#include "h_prob_timelines.inc"
+#include "h_prob_temporal.inc" // NOLINT: StateVariable / ReusableResource layer and the plan validators
 #include "h_prob_rules.inc"     // NOLINT: predicates with rules, facts, goals; derivation-structure checks (C03)
 #include "h_prob_exec.inc"      // NOLINT: executor scenario (C19)
 
@@ -829,6 +830,42 @@ namespace
       if (at != std::string::npos) { text = all.substr(0, at); ctext = all.substr(at + sep.size()); }
       fprintf(stderr, "-- program (in case the process dies) --\n%s%s-- end of program --\n", text.c_str(), ctext.c_str());
       Problem none;
+      std::vector<std::string> c06_all;
+      if (P == "C06")
+        g_after_solve = [&c06_all](ratio::solver &s) { // C06 on every interval / impulse atom of every predicate of the solver
+          auto numv = [&](ratio::expr e) { return toE(s.arith_value(ratio::arith_expr(static_cast<ratio::arith_item *>(&*e)))); };
+          E origin = numv(s.get("origin")), horizon = numv(s.get("horizon"));
+          std::vector<ratio::predicate *> preds;
+          for (auto &kv : s.get_predicates()) preds.push_back(kv.second);
+          std::vector<ratio::type *> q;
+          for (auto &kv : s.get_types()) q.push_back(kv.second);
+          while (!q.empty())
+          {
+            ratio::type *tp = q.back();
+            q.pop_back();
+            for (auto &kv : tp->get_predicates()) preds.push_back(kv.second);
+            for (auto &kv : tp->get_types()) q.push_back(kv.second);
+          }
+          for (auto *pr : preds)
+            for (auto &ae : pr->get_instances())
+            {
+              ratio::atom *at = dynamic_cast<ratio::atom *>(&*ae);
+              if (!at || &at->get_type() != pr || s.get_sat_core().value(at->get_sigma()) != smt::True) continue;
+              if (s.is_interval(*at))
+              {
+                E st = numv(at->get("start")), en = numv(at->get("end")), du = numv(at->get("duration"));
+                if (qx::cmp(origin, st) > 0 || qx::cmp(st, en) > 0 || qx::cmp(en, horizon) > 0)
+                  c06_all.push_back("active atom of " + pr->get_name() + " violates origin <= start <= end <= horizon: origin=" + qx::str(origin) + " start=" + qx::str(st) + " end=" + qx::str(en) + " horizon=" + qx::str(horizon));
+                if (qx::cmp(du, qx::esub(en, st)) != 0 || qx::cmp(du, E(Q(0))) < 0)
+                  c06_all.push_back("active atom of " + pr->get_name() + ": duration=" + qx::str(du) + " but end - start=" + qx::str(qx::esub(en, st)));
+              }
+              else if (s.is_impulse(*at))
+              {
+                E a = numv(at->get("at"));
+                if (qx::cmp(origin, a) > 0 || qx::cmp(a, horizon) > 0) c06_all.push_back("active impulse atom of " + pr->get_name() + " is outside [origin, horizon]: at=" + qx::str(a) + " horizon=" + qx::str(horizon));
+              }
+            }
+        };
       Outcome out = run(none, text, ctext);
       std::string verdict = out.verdict == SOLVED ? "solved" : out.verdict == UNSOLVABLE ? "unsolvable" : "rejected";
       r.render = all + "-- verdict: " + verdict + (out.error.empty() ? "" : " (" + out.error + ")") + "\n";
@@ -838,6 +875,8 @@ namespace
         r.violation = true;
         r.message = "the program has the known verdict `" + expect + "` but the solver reports `" + verdict + "`" + (out.error.empty() ? "" : " (" + out.error + ")");
       }
+      if (!r.violation && !c06_all.empty()) { r.violation = true; r.message = c06_all[0]; }
+      for (auto &m : c06_all) r.render += "!! " + m + "\n";
       r.nontrivial = true;
       return;
     }
@@ -846,12 +885,13 @@ namespace
     std::string layer = o.get("layer", "L0");
     if (P == "C16") layer = "eval";
     if (P == "C17") layer = "L1";
-    if (P == "C04" || P == "C05" || P == "C06" || P == "C19") layer = "L3";
+    if (P == "C04" || P == "C05" || (P == "C06" && layer != "L3b") || P == "C19") layer = "L3";
     if (P == "C03" && layer != "L2p") layer = "L2";
     p.planted = layer == "L3" ? true : (P == "C02" ? t.chance(1, 2) : t.chance(2, 3));
     Timelines tl;
     Rules rl;
     Shared sh;
+    Temporal tmp;
     std::vector<std::string> c03, c19;
     std::ostringstream xlog;
     g_c03_struct.clear();
@@ -870,6 +910,12 @@ namespace
         check_structure(s);
 #endif
       };
+    }
+    else if (layer == "L3b")
+    {
+      gen_temporal(g, tmp);
+      g_plan = Plan();
+      g_after_solve = [&tmp](ratio::solver &s) { read_plan_temporal(s, tmp, g_plan); };
     }
     else if (layer == "L2p")
     {
@@ -1010,6 +1056,7 @@ namespace
       check_objects(p, out, c17);
       if (layer == "L3") check_timelines(p, tl, out, c04, c05, c06, c01, r);
       if (layer == "L2p") check_shared(sh, out, c01, c03, r);
+      if (layer == "L3b") check_temporal(tmp, g_plan, c01, c06, r);
     }
     // C02 (c): semantically equivalent formulations get the same verdict
     if (P == "C02" && (layer == "L0" || layer == "L1") && out.verdict != REJECTED && std::hash<std::string>()(text + ctext) % 3 == 0)
@@ -1062,8 +1109,8 @@ namespace
     {
       if (p.planted)
         c02.push_back("a problem built around a known solution was declared unsolvable (" + out.error + ")");
-      else if (layer != "L3" && layer != "L2")
-      {
+      else if (layer == "L0" || layer == "L1" || layer == "eval")
+      { // the Z3 translation covers the constraint and object fragment only
         Z z(p);
         if (z.satisfiable() == z3::sat)
           c02.push_back("the problem was declared unsolvable (" + out.error + ") but an independent decision procedure finds a solution");
@@ -1104,7 +1151,7 @@ namespace
     for (auto &f : p.feats) r.classes.insert(f);
     r.classes.insert(out.verdict == SOLVED ? "verdict: solved" : out.verdict == UNSOLVABLE ? "verdict: unsolvable" : "verdict: rejected");
     r.classes.insert(p.planted ? "planted" : "free");
-    if (P == "C01" && (layer == "L3" || layer == "L2p")) r.nontrivial = out.verdict == SOLVED && r.nontrivial;
+    if ((P == "C01" || P == "C06") && (layer == "L3" || layer == "L2p" || layer == "L3b")) r.nontrivial = out.verdict == SOLVED && r.nontrivial;
     else if (P == "C01") r.nontrivial = out.verdict == SOLVED && (evaluated_mixed || p.feats.count("arithmetic disequality") || p.feats.count("disjunction statement") || !p.objvars.empty());
     else if (P == "C02") r.nontrivial = out.verdict == UNSOLVABLE || p.planted;
     else if (P == "C16") r.nontrivial = out.verdict == SOLVED && (p.feats.count("product with a non-constant factor") || p.feats.count("unary minus") || p.feats.count("division") || p.feats.count("boolean constant expression"));
